@@ -75,6 +75,10 @@ MUTANTS = [
      "        self.build_database()\n        return self.database",
      "        self.build_database()\n        PyDBMLParser.last = self\n        return self.database", "passes",
      "library keeps a reference to the last parser (and its database)"),
+    ("c11-intra-line-race", "C11", "pydbml/parser/parser.py",
+     "        self.database = Database(\n            allow_properties=self._allow_properties,\n            sql_renderer=self._sql_renderer,\n            dbml_renderer=self._dbml_renderer,\n        )",
+     "        PyDBMLParser._db = Database(allow_properties=self._allow_properties, sql_renderer=self._sql_renderer, dbml_renderer=self._dbml_renderer); self.database = PyDBMLParser._db; PyDBMLParser._db = None",
+     "passes", "read-modify-write through a class attribute within ONE source line: only opcode-level pre-emption can split it"),
     ("c11-packrat-at-import", "C11", "pydbml/parser/parser.py",
      "_grammar_lock = RLock()", "_grammar_lock = RLock()\npp.ParserElement.enable_packrat()", "passes",
      "planned as a negative control, but with packrat the first (cold) parse of many valid documents raises "
